@@ -65,6 +65,15 @@ def run(p):
         za = rng.uniform(1e-3, 179.999) if rng.random() < 0.5 else rng.uniform(180.001, 359.999)
         sd = 10 ** rng.uniform(-1, 4.7)
         hi, ht = rng.uniform(-5, 5), rng.uniform(-5, 5)
+        rel_ = rng.random()
+        if rel_ < 0.08:
+            ht = -hi                      # heights that cancel in a sum
+        elif rel_ < 0.14:
+            ht = hi
+        elif rel_ < 0.20:
+            hi, ht = rng.choice([(0.0, ht), (hi, 0.0), (0, ht), (hi, 0)])
+        elif rel_ < 0.28:
+            hi, ht = rng.choice([(1.5, -1.5), (-2, 2), (5, -5), (1, 1), (0.0, -0.0), (2, 3)])
         inp = [za, sd, hi, ht]
         ok, r0 = p.guarded('va_conv-raises', 'va_pythagoras', inp, lambda: S.va_conv(za, sd))
         if not ok:
